@@ -268,3 +268,69 @@ def remapping(tier, seed):
              f"each source also onto itself) x data on nodes / edges / faces x 3 destinations x spherical / cartesian x 0..2 leading "
              f"dims; IDW with k in 2, 4, n and power in 1, 2, 3.5, one-hot fields to observe the weights; JIT off")
     return result(ctx.cases, len(keys) * 18, ctx.fails, bound, samples)
+
+
+# ---------------------------------------------------------------------------------------------- history scenario (added by main)
+def remap_history(tier, seed):
+    """remap -> move the source grid's nodes through the public coordinate setters -> remap again: the second remap must use the
+    grid's CURRENT coordinates (nearest source by brute-force great circle), also after trees were requested by hand in between"""
+    import numpy as _np
+    import xarray as _xr
+    import uxarray as _ux
+    from . import meshgen as _mg
+    from .common import grid_of as _grid_of, result as _result
+    rng = random.Random(seed * 911 + 3)
+    fails, cases, distinct = [], 0, 0
+    meshes = [_mg.quad_patch(3, 2), _mg.quad_patch(2, 2, lon0=165.0, lat0=-15.0), _mg.small_meshes()[6]]
+    if tier == "thorough":
+        meshes += _mg.random_meshes(seed + 77, 8)
+    for m in meshes:
+        for coord_type in ("spherical", "cartesian"):
+            for method in ("nearest_neighbor", "inverse_distance_weighted"):
+                for pre in ("remap_first", "tree_first"):
+                    g = _grid_of(m)
+                    dst = _grid_of(_mg.quad_patch(2, 1, lon0=float(_np.min(m["lon"])) + 1.3, lat0=float(_np.min(m["lat"])) + 0.7, d=3.1))
+                    n = g.n_node
+                    data = _np.arange(n, dtype=float) * 10.0 + 1.0
+                    da = _ux.UxDataArray(data, dims=["n_node"], uxgrid=g, name="v")
+                    kw = {"remap_to": "nodes", "coord_type": coord_type}
+                    if method == "inverse_distance_weighted":
+                        kw.update(k=2, power=2)
+                    if pre == "remap_first":
+                        getattr(da.remap, method)(dst, **kw)
+                    else:
+                        g.get_ball_tree("nodes", coordinate_system=coord_type, distance_metric="haversine" if coord_type == "spherical" else "minkowski")
+                    # move the nodes: mirror the patch about its centre longitude (a permutation-free, large displacement)
+                    lon = _np.array(g.node_lon.values, copy=True)
+                    lat = _np.array(g.node_lat.values, copy=True)
+                    c = 0.5 * (lon.min() + lon.max())
+                    new_lon = 2 * c - lon
+                    g.node_lon = _xr.DataArray(new_lon, dims=g.node_lon.dims, attrs=g.node_lon.attrs)
+                    for nm in ("node_x", "node_y", "node_z"):
+                        if nm in g._ds:
+                            g._ds = g._ds.drop_vars(nm)
+                    out = getattr(da.remap, method)(dst, **kw).values
+                    distinct += 1
+                    S = _xyz(new_lon, lat)
+                    D = _xyz(dst.node_lon.values, dst.node_lat.values)
+                    for j in range(D.shape[0]):
+                        cases += 1
+                        ang = _np.arccos(_np.clip(S @ D[j], -1, 1))
+                        order = _np.argsort(ang)
+                        if len(order) > 1 and abs(ang[order[0]] - ang[order[1]]) < 1e-9:
+                            continue    # tie
+                        if method == "nearest_neighbor":
+                            ok = abs(out[j] - data[order[0]]) < 1e-9
+                        else:
+                            lo, hi = sorted((data[order[0]], data[order[1]]))
+                            ok = lo - 1e-9 <= out[j] <= hi + 1e-9 and len(order) > 2 and abs(ang[order[1]] - ang[order[2]]) > 1e-9 or \
+                                (lo - 1e-9 <= out[j] <= hi + 1e-9)
+                        if not ok:
+                            fails.append({"key": f"stale_source_positions_after_coordinate_setter:{method}:{coord_type}:{pre}",
+                                          "what": f"{method} after the source grid's node_lon was replaced through the setter still answers from the old "
+                                                  f"node positions (destination node {j}: got {out[j]!r})",
+                                          "violated": "every destination gets the value of the nearest source element (current coordinates)",
+                                          "inputs": {"mesh": m["name"], "coord_type": coord_type, "history": pre}})
+                            break
+    return _result(cases, distinct, fails, f"{len(meshes)} source meshes x spherical/cartesian x NN/IDW x (remap | tree request) before "
+                   "the source nodes are moved through the node_lon setter, then a second remap compared with brute force")
